@@ -177,63 +177,63 @@ impl LangInterpreter for Italian {
                 }
             }
             "milione" if b.is_range_free(6, 8) => {
-                if b.len() != 1 || b.peek(1) != b"1" {
+                if b.peek(2) != b"1" {
                     Err(Error::NaN)
                 } else {
                     b.shift(6)
                 }
             }
             "milionesim" if b.is_range_free(6, 8) => {
-                if b.len() == 1 && b.peek(1) == b"1" {
+                if b.peek(2) == b"1" {
                     Err(Error::NaN)
                 } else {
                     b.shift(6)
                 }
             }
             "milioni" if b.is_range_free(6, 8) => {
-                if b.is_empty() || b.len() == 1 && b.peek(1) == b"1" {
+                if b.is_empty() || b.peek(2) == b"1" {
                     Err(Error::NaN)
                 } else {
                     b.shift(6)
                 }
             }
             "miliardo" => {
-                if b.len() != 1 || b.peek(1) != b"1" {
+                if b.peek(2) != b"1" {
                     Err(Error::NaN)
                 } else {
                     b.shift(9)
                 }
             }
             "miliardesim" => {
-                if b.len() == 1 && b.peek(1) == b"1" {
+                if b.peek(2) == b"1" {
                     Err(Error::NaN)
                 } else {
                     b.shift(9)
                 }
             }
             "miliardi" => {
-                if b.is_empty() || b.len() == 1 && b.peek(1) == b"1" {
+                if b.is_empty() || b.peek(2) == b"1" {
                     Err(Error::NaN)
                 } else {
                     b.shift(9)
                 }
             }
             "bilione" => {
-                if b.len() != 1 || b.peek(1) != b"1" {
+                if b.peek(2) != b"1" {
                     Err(Error::NaN)
                 } else {
                     b.shift(12)
                 }
             }
             "bilionesim" => {
-                if b.len() == 1 && b.peek(1) == b"1" {
+                if b.peek(2) == b"1" {
                     Err(Error::NaN)
                 } else {
                     b.shift(12)
                 }
             }
             "bilioni" => {
-                if b.is_empty() || b.len() == 1 && b.peek(1) == b"1" {
+                if b.is_empty() || b.peek(2) == b"1" {
                     Err(Error::NaN)
                 } else {
                     b.shift(12)
